@@ -451,6 +451,11 @@ Section MacCrypto.
       end
     end.
 
+  (* the application's downlink queue `heapless::Vec<Downlink, D>` handed to handle_rx: a delivered downlink is appended when there is
+     room (`let _ = dl.push(..)`), nothing else ever touches it *)
+  Definition dl_queue_push (depth : nat) (q : list (N * list N)) (d : option (N * list N)) : list (N * list N) :=
+    match d with Some x => if Nat.ltb (length q) depth then q ++ [x] else q | None => q end.
+
   Record mrx_out := { mo_mac : mac; mo_resp : response; mo_downlink : option (N * list N); mo_buf : list N }.
 
   (* Mac::handle_rx (Class A window) / handle_rxc (class_c = true: Err(NotJoined) unless joined) *)
